@@ -449,6 +449,9 @@ func (w *jobWorld) envEnabled() []string {
 				if has(s.PodActions, "flap") && w.mem.FlapUsed < s.MaxFlap && len(p.Status.ContainerStatuses) > 0 {
 					out = append(out, "k:flap:"+name)
 				}
+				if has(s.PodActions, "oomrestart") && w.mem.FlapUsed < s.MaxFlap && len(p.Status.ContainerStatuses) == 1 && p.Status.ContainerStatuses[0].LastTerminationState.Terminated == nil {
+					out = append(out, "k:oomrestart:"+name)
+				}
 				if has(s.PodActions, "sidecar") && w.mem.FlapUsed < s.MaxFlap && len(p.Status.ContainerStatuses) == 1 {
 					out = append(out, "k:sidecar:"+name)
 				}
@@ -459,6 +462,10 @@ func (w *jobWorld) envEnabled() []string {
 			// During graceful deletion the container may still run to completion.
 			if has(s.PodActions, "latefinish") && !podFinished(p) && p.Spec.NodeName != "" {
 				out = append(out, "k:succeed:"+name)
+			}
+			// ... or exit non-zero when told to terminate.
+			if has(s.PodActions, "latefail") && !podFinished(p) && p.Spec.NodeName != "" && w.mem.FailsUsed < s.MaxFail {
+				out = append(out, "k:fail:"+name)
 			}
 		}
 		if !deleting && has(s.PodActions, "vanish") && w.mem.VanishUsed < s.MaxVanish {
@@ -561,6 +568,16 @@ func (w *jobWorld) envApply(action string) {
 			p := o.(*corev1.Pod)
 			p.Status.Phase = corev1.PodPending
 			p.Status.ContainerStatuses = []corev1.ContainerStatus{{Name: "c", State: corev1.ContainerState{Waiting: &corev1.ContainerStateWaiting{Reason: "ContainerCreating"}}}}
+		})
+	case "k:oomrestart":
+		// The container was OOM-killed once and restarted by the kubelet (restartPolicy OnFailure): the Pod is Running.
+		w.mem.FlapUsed++
+		w.API.EnvMutate(sim.Pods, "default/"+parts[2], func(o runtime.Object) {
+			p := o.(*corev1.Pod)
+			now := metav1.NewTime(w.Now())
+			cs := &p.Status.ContainerStatuses[0]
+			cs.LastTerminationState = corev1.ContainerState{Terminated: &corev1.ContainerStateTerminated{ExitCode: 137, Reason: "OOMKilled", StartedAt: now, FinishedAt: now}}
+			cs.RestartCount = 1
 		})
 	case "k:sidecar":
 		// A helper container of the Pod has exited while the main one is still running: the Pod stays Running.
